@@ -114,9 +114,18 @@ func (h *histStepper) Step() {
 				sharedContent[op.SharedAF] = mon.Clone(op.Data.AdaptationField)
 			}
 			if op.SharedEdit != nil {
-				keep := shared[op.SharedAF].StuffingLength
-				*shared[op.SharedAF] = *mon.Clone(op.SharedEdit)
-				shared[op.SharedAF].StuffingLength = keep
+				// the caller edits the content of its objects: what the library left in the by-product fields (stuffing length, the
+				// Length of the field and of its extension) stays as it is, and the extension is the same object as before
+				sh := shared[op.SharedAF]
+				keep, keepLen, oldExt := sh.StuffingLength, sh.Length, sh.AdaptationExtensionField
+				*sh = *mon.Clone(op.SharedEdit)
+				sh.StuffingLength, sh.Length = keep, keepLen
+				if oldExt != nil && sh.AdaptationExtensionField != nil {
+					l := oldExt.Length
+					*oldExt = *sh.AdaptationExtensionField
+					oldExt.Length = l
+					sh.AdaptationExtensionField = oldExt
+				}
 				sharedContent[op.SharedAF] = mon.Clone(op.SharedEdit)
 			}
 			// the oracle must compare with the content really passed
@@ -782,6 +791,50 @@ func remuxScenario(r *rand.Rand, fromMuxer bool) (ops []HOp, units int, parsedEn
 		ops = append(ops, HOp{Kind: "pcr", PID: pids[0]})
 	}
 	return append(ops, data...), len(data), parsedEntries
+}
+
+// extensionEditScenario: the caller keeps one adaptation field object with an extension for its stream and changes what the
+// extension carries from unit to unit (a legal time window here, a seamless splice point there, reserved bytes): every length byte
+// written follows the content of the call, not what an earlier call or a parse left in the structure.
+func extensionEditScenario(r *rand.Rand) []HOp {
+	ext := func() *astits.PacketAdaptationExtensionField {
+		e := &astits.PacketAdaptationExtensionField{}
+		if r.IntN(2) == 0 {
+			e.HasLegalTimeWindow, e.LegalTimeWindowIsValid, e.LegalTimeWindowOffset = true, r.IntN(2) == 0, uint16(r.IntN(1<<15))
+		}
+		if r.IntN(2) == 0 {
+			e.HasPiecewiseRate, e.PiecewiseRate = true, uint32(r.IntN(1<<22))
+		}
+		if r.IntN(2) == 0 {
+			e.HasSeamlessSplice, e.SpliceType, e.DTSNextAccessUnit = true, uint8(r.IntN(16)), &astits.ClockReference{Base: int64(r.Uint64N(1 << 33))}
+		}
+		if r.IntN(3) == 0 {
+			e.ReservedLength = r.IntN(6)
+		}
+		return e
+	}
+	af := func() *astits.PacketAdaptationField {
+		a := &astits.PacketAdaptationField{HasAdaptationExtensionField: true, AdaptationExtensionField: ext(), RandomAccessIndicator: r.IntN(2) == 0}
+		if r.IntN(2) == 0 {
+			a.HasPCR, a.PCR = true, &astits.ClockReference{Base: int64(r.Uint64N(1 << 33)), Extension: int64(r.IntN(300))}
+		}
+		return a
+	}
+	mk := func(first, edit *astits.PacketAdaptationField) HOp {
+		return HOp{Kind: "data", PID: 0x41, SharedAF: 2, SharedEdit: edit, Data: &astits.MuxerData{AdaptationField: first,
+			PES: &astits.PESData{Header: &astits.PESHeader{StreamID: 0xC0, OptionalHeader: &astits.PESOptionalHeader{MarkerBits: 2}}, Data: gen.Bytes(r, 1+r.IntN(500))}}}
+	}
+	ops := []HOp{{Kind: "add", PID: 0x41, ES: &astits.PMTElementaryStream{StreamType: astits.StreamTypeAACAudio}, Slot: -1}, {Kind: "pcr", PID: 0x41}}
+	first := af()
+	ops = append(ops, mk(first, nil))
+	for k := 0; k < 3+r.IntN(6); k++ {
+		var e *astits.PacketAdaptationField
+		if r.IntN(4) != 0 {
+			e = af()
+		}
+		ops = append(ops, mk(first, e))
+	}
+	return ops
 }
 
 // retryScenario: a WriteData call is rejected because its adaptation field (private data) is larger than a packet; the caller
